@@ -19,6 +19,7 @@ var table = map[string]func(*core.Ctx){
 	"C01": props.C01,
 	"C02": props.C02,
 	"C03": props.C03,
+	"C04": props.C04,
 	"C05": props.C05,
 	"C06": props.C06,
 	"C07": props.C07,
